@@ -474,6 +474,13 @@ func suiteAlias(rn *runner, r *rng, tier string) {
 				}
 			}
 		}
+		if err == nil && cr.chance(1, 2) {
+			// the clone handed to another Parse as its reuse argument: the original must not notice
+			nextParse.reuse = c.st.pjs["c"]
+			c.emit("parse z 0 1 " + hx([]byte("{\"other\":[\"document\",1,2.5,{\"k\":null}]}")))
+			c.emit("owalk n")
+			c.expectLast(ordRoots(roots))
+		}
 		c.tc.class = fmt.Sprintf("nd=%v/reuse=%v/clone=%d/%s", nd, useReuse, cloneKind, sizeClass(len(text)))
 		rn.addPrepared(c.tc)
 	}
@@ -536,9 +543,10 @@ func suiteConc(rn *runner, r *rng, tier string) {
 	for round := 0; round < rounds; round++ {
 		nG := []int{4, 8, 16, 32, 64}[r.intn(5)]
 		type job struct {
-			ops []string
-			seq []string
-			par []string
+			ops  []string
+			seq  []string
+			par  []string
+			same [][2]int // pairs of op indexes whose replies must be equal (the same object read before and after)
 		}
 		jobs := make([]*job, nG)
 		for g := range jobs {
@@ -556,6 +564,12 @@ func suiteConc(rn *runner, r *rng, tier string) {
 				}
 				j.ops = append(j.ops, fmt.Sprintf("parse p %s %d %s", nd, cr.intn(2), hx([]byte(text))), "owalk p", "iter i p", "marshal i", "clone c p",
 					"iter e c", "advinto e", "advinto e", "advinto e", "setnull e", "owalk c", "owalk p", "serde s p", "owalk s")
+				// a clone handed to another Parse as its reuse argument: an independent object, the original must not notice
+				if cr.chance(1, 3) {
+					other := cr.doc(cfg)
+					j.ops = append(j.ops, "clone k p", fmt.Sprintf("parsereuse q k 0 %d %s", cr.intn(2), hx([]byte(other))), "owalk p", "owalk q")
+					j.same = append(j.same, [2]int{len(j.ops) - 2, len(j.ops) - 7})
+				}
 			}
 			jobs[g] = j
 		}
@@ -627,6 +641,13 @@ func suiteConc(rn *runner, r *rng, tier string) {
 			for _, op := range j.ops {
 				nextSerde = serdeOpts{m1: simdjson.CompressDefault, m2: simdjson.CompressDefault}
 				j.seq = append(j.seq, st.exec(op))
+			}
+			for _, pr := range j.same {
+				if j.seq[pr[0]] != j.seq[pr[1]] {
+					rn.disagree(disagreement{Kind: "spec", Ops: j.ops[:pr[0]+1], At: pr[0], Impl: clip([]string{j.seq[pr[0]]}, 1)[0], Other: clip([]string{j.seq[pr[1]]}, 1)[0],
+						Note: "an object changed when its clone was used as the reuse argument of another Parse"})
+					break
+				}
 			}
 		}
 		// concurrent run (serde options are process-global in the harness: default modes only)
